@@ -1249,6 +1249,20 @@ func checkHeads(st didstore.Store, set *eventSet, lab labeler, order string, res
 			res.findings = append(res.findings, finding{"C10/resolution/" + site, fmt.Sprintf("after order [%s] the latest version stems from {%s} but the unreferenced transactions (branches) of the DID are {%s}", order, strings.Join(got, ","), strings.Join(want, ",")), w})
 			continue
 		}
+		// a DID with one creation transaction: every version carries that transaction's signing time as creation time
+		var creations []*evt
+		seenC := map[string]bool{}
+		for i := range set.Events {
+			e := &set.Events[i]
+			if e.DID.Equals(id) && len(e.parents) == 0 && !seenC[e.Tx.Ref.String()] {
+				seenC[e.Tx.Ref.String()] = true
+				creations = append(creations, e)
+			}
+		}
+		if len(creations) == 1 && !m.Created.Equal(creations[0].Tx.SigningTime) {
+			w["created"], w["creationSigningTime"] = m.Created.Format(time.RFC3339Nano), creations[0].Tx.SigningTime.Format(time.RFC3339Nano)
+			res.findings = append(res.findings, finding{"C10/resolution/created-time", fmt.Sprintf("after order [%s] the latest version says it was created at %s, the only creation transaction %s was signed at %s", order, m.Created.Format(time.RFC3339Nano), creations[0].Label, creations[0].Tx.SigningTime.Format(time.RFC3339Nano)), w})
+		}
 		if len(want) == 1 {
 			head := heads[m.SourceTransactions[0].String()]
 			var pub did.Document
